@@ -149,6 +149,12 @@ MUTANTS["C11"] = [
     ("cisco-add-keyword-dropped", "annet/rulebook/cisco/vlandb.py", '" add " if explicit_changing else " "', '" "'),
     ("cisco-none-on-remove-only", "annet/rulebook/cisco/vlandb.py", "    if len(diff[Op.ADDED]) == 1 and len(new) == 0:", "    if explicit_changing and len(new) == 0:"),
     ("collapse-pair-off-by-one", "annet/annlib/lib.py", "            res.append([row[0], row[0]])\n            res.append([row[1], row[1]])", "            res.extend([v, v] for v in range(row[0], row[1]))"),
+    ("cisco-unchanged-lines-not-counted (revert of 32d28b8)", "annet/rulebook/cisco/vlandb.py", "    stays |= new\n", "    stays = set(new)\n"),
+    ("cisco-catalyst-blocks-subtracted-before-differences", "annet/rulebook/cisco/vlandb.py",
+     "    removed = old.difference(stays)\n    added = new.difference(old)\n    if hw.Catalyst:\n        # Каталисты не перечисляют вланы в batch режиме, если они представлены как блоки\n        added -= new_blocks.keys()\n",
+     "    if hw.Catalyst:\n        new -= new_blocks.keys()\n        stays -= new_blocks.keys()\n    removed = old.difference(stays)\n    added = new.difference(old)\n"),
+    ("huawei-batch-new-last-line-only", "annet/rulebook/huawei/vlandb.py", "            batch_new.update(vlans)", "            batch_new = vlans"),
+    ("cisco-removed-block-content-kept", "annet/rulebook/cisco/vlandb.py", "    for vlan_id in ((set(old_blocks.keys()) - set(new_blocks)) & stays):", "    for vlan_id in ((set(old_blocks.keys()) - set(new_blocks)) & set()):"),
     ("huawei-expand-to-exclusive", "annet/annlib/lib.py", "            expanded = expanded.union(range(left + 1, right))", "            expanded = expanded.union(range(left + 2, right))"),
 ]
 
